@@ -266,7 +266,7 @@ func cmdRun(args []string) int {
 		fatal("no harness for property " + *prop)
 	}
 	known := loadKnownFindings()
-	cfg := Config{maxSteps: 3000000, maxLoop: 300, maxDepth: 200, maxIteChain: 96, maxConcretize: 600, timeoutMs: 20000, solverKind: *solver, maxAllocCells: 1 << 16}
+	cfg := Config{maxSteps: 3000000, maxLoop: 300, maxDepth: 200, maxIteChain: 96, maxConcretize: 600, timeoutMs: 20000, solverKind: *solver, maxAllocCells: 1 << 16, bigAlloc: 64}
 	if *tier == "thorough" {
 		cfg.timeoutMs = 120000
 		cfg.maxLoop = 1200
